@@ -1,4 +1,10 @@
 TEXT = {
+    "C14": {
+        "level": "Machine-checked proof (Coq): for every location list, every order sort.Slice may produce (any priority-ordered permutation), every host, URI and server location list, Locations.Get's model returns a configured location that the server lists and that matches host and URI, with no eligible location of a strictly better class; it returns none iff no location is eligible; priority order equals the documented class order for all weights with 0<host<prefix (instantiated per run with the weights regenerated from getPriority). Tied to the code by differential runs of the real NewLocations/Get over generated location sets x a host/URI universe, compared on (found?, class) and monitored for validity of the implementation's own choice.",
+        "note": "Trusted: Coq kernel + vm_compute; hand-written model of location.go (tied by correspondence); sort.Slice assumed to return a permutation ordered by the comparison; the 503/no-upstream-contact consequence is exercised end to end under C15. No axioms.",
+        "technique": "Coq proof over all sorted permutations (Permutation + StronglySorted); per-run instantiation of the class-order side condition; vm_compute differential replay + validity monitor",
+        "design_ref": "DESIGN.md §7 C14",
+    },
     "C03": {
         "level": "Machine-checked proof (Coq): for every method and every upstream header set, if the model of the cache middleware's storage decision stores a response with lifetime T then the method is GET/HEAD, no Set-Cookie line exists, no Cache-Control token over all lines is named no-cache/no-store/private (ASCII case-insensitive), T>0 and T = n - max(0,Age) with n the first s-maxage (else first max-age) token's saturated value; status codes are not an input and other headers are irrelevant (frame theorem). The model (regexes as string scanners incl. Go's (?i) fold of U+017F, strconv.Atoi saturation, Header.Get/Values) is tied to the code per run by pinning the three regex literals regenerated from server/proxy.go and by differential runs of the real getCacheMaxAge on generated header sets; the token-level monitor also runs on the implementation's answers. System-level parts (label truthful, forwarded once) are proved over the entry-protocol model under C01/C02's check.",
         "note": "Trusted: Coq kernel + vm_compute; hand-written model of getCacheMaxAge/requestIsPass (tied by correspondence); Go regexp and strconv semantics as modelled; net/http canonical header keys. No axioms.",
